@@ -38,6 +38,7 @@ type c15Scen struct {
 	ShortN     int       `json:"short_write_accepts"`
 	Middleware bool      `json:"http_middleware_between_filter_and_handler"`
 	NoProduces bool      `json:"route_declares_no_produces"` // with an Accept no writer serves, entity calls answer 406
+	DefaultCT  string    `json:"default_response_content_type,omitempty"`
 }
 
 var c15First = []string{"none", "WriteHeader", "WriteEntity", "WriteHeaderAndEntity", "WriteAsJson", "WriteAsXml", "WriteJson", "WriteHeaderAndJson", "WriteHeaderAndXml", "WriteError", "WriteErrorString", "WriteServiceError"}
@@ -67,7 +68,7 @@ func genC15(x *Ctx) *c15Scen {
 		}
 		sc.Calls = append(sc.Calls, c)
 	})
-	sc.Accept = []string{"", "application/json", "application/xml"}[tp.G(3)]
+	sc.Accept = []string{"", "application/json", "application/xml", "application/xml;q=0.4, application/json", "text/plain;q=0.9, */*;q=0.1"}[tp.G(5)]
 	sc.Pretty = tp.Bool()
 	sc.Coding = []string{"", "", "gzip", "deflate"}[tp.G(4)]
 	sc.ShortN = tp.G(64)
@@ -75,6 +76,10 @@ func genC15(x *Ctx) *c15Scen {
 	if tp.Chance(150) {
 		sc.NoProduces = true
 		sc.Accept = []string{"", "*/*"}[tp.G(2)] // admitted by the router, served by no entity writer
+		if tp.Bool() {
+			// ... unless the package-level default names one
+			sc.DefaultCT = []string{"application/json", "application/xml"}[tp.G(2)]
+		}
 	}
 	return sc
 }
@@ -102,6 +107,7 @@ func c15EntityFor(n int) *c15Entity {
 // c15Exec runs the call sequence once on a fresh container with the given fault plan.
 func c15Exec(sc *c15Scen, mode, failAt int) *c15Obs {
 	obs := &c15Obs{}
+	restful.DefaultResponseContentType(sc.DefaultCT)
 	c := restful.NewContainer()
 	c.EnableContentEncoding(sc.Coding != "")
 	c.Filter(func(req *restful.Request, resp *restful.Response, chain *restful.FilterChain) {
